@@ -27,7 +27,7 @@ Recov  == {"msg_cancel", "msg_coop", "pay_claim", "notify", "rpc_resend", "pol_r
 Chains == {[n |-> "not", d0 |-> 0, mines |-> 1], [n |-> "edge", d0 |-> 1, mines |-> 0], [n |-> "just", d0 |-> 1, mines |-> 1], [n |-> "long", d0 |-> 2, mines |-> 0]}
 
 Cfg(w, role, prep, ch, restart, flt, a, b, c) ==
-  [watcher |-> w, role |-> role, prep |-> prep, chain |-> ch.n, d0 |-> ch.d0, mines |-> ch.mines, restart |-> restart, faults |-> flt,
+  [watcher |-> w, role |-> role, prep |-> prep, chain |-> ch.n, d0 |-> ch.d0, mines |-> ch.mines, restart |-> restart, faults |-> flt, lbtc |-> (w = "el"),
    entry |-> [p \in Drivers |-> IF p = "A" THEN a ELSE IF p = "B" THEN b ELSE c]]
 
 FaultsFor(a, b) == IF "msg_coop" \in {a, b} THEN {{}, {"wallet.coop"}} ELSE {{}}
@@ -40,8 +40,8 @@ MakerOK(c) ==
   /\ (c.faults # {} => "msg_coop" \in {c.entry["A"], c.entry["B"]})
   /\ (c.chain # "not" => c.entry["A"] \in Core /\ c.entry["B"] \in Core \cup {"-"})
 TripleCfgs ==
-  {Cfg(w, "in_sender", "ACP", ch, FALSE, {}, a, b, "notify") :
-      w \in {"rpc", "el"}, ch \in {x \in Chains : x.n \in {"just", "long"}}, a \in {"msg_cancel", "msg_coop_bad"}, b \in {"pay_claim", "msg_coop", "msg_cancel"}}
+  {c \in {Cfg(w, "in_sender", "ACP", ch, FALSE, {}, a, b, "notify") :
+      w \in {"rpc", "el"}, ch \in {x \in Chains : x.n \in {"just", "long"}}, a \in {"msg_cancel", "msg_coop_bad"}, b \in {"pay_claim", "msg_coop", "msg_cancel"}} : TRUE}
 TakerCfgs ==
   {Cfg(w, role, prep, [n |-> "not", d0 |-> 0, mines |-> 1], FALSE, {}, a, b, "-") :
       w \in {"rpc", "el"}, role \in {"out_sender", "in_receiver"}, prep \in {"ATB", "ATC"}, a \in Taker, b \in Taker \cup {"-"}}
@@ -52,7 +52,9 @@ RecovCfgs ==
 \* A <= B in a fixed order removes the mirrored configurations
 Ord == <<"-", "msg_cancel", "msg_coop", "msg_coop_bad", "msg_opening", "pay_claim", "timeout", "notify", "notify_obs", "rpc_resend", "rpc_swapout", "pol_set", "pol_reload", "pol_get", "recover">>
 Idx(e) == CHOOSE i \in 1..Len(Ord) : Ord[i] = e
-Canon(c) == c.entry["B"] = "-" \/ c.entry["A"] = "recover" \/ Idx(c.entry["A"]) <= Idx(c.entry["B"])
+Once == {"timeout", "pay_claim"}     \* one timer / one payment notification per swap
+Canon(c) == /\ (c.entry["B"] = "-" \/ c.entry["A"] = "recover" \/ Idx(c.entry["A"]) <= Idx(c.entry["B"]))
+            /\ ~(c.entry["A"] = c.entry["B"] /\ c.entry["A"] \in Once)
 
 AllCfgs == {c \in MakerCfgs : MakerOK(c) /\ Canon(c)} \cup TripleCfgs \cup {c \in TakerCfgs : Canon(c)} \cup RecovCfgs
 QuickCfgs == {c \in AllCfgs : c.entry["C"] = "-" /\ (c.chain = "not" => c.prep \in {"ACP", "ATC", "ATB"})}
